@@ -752,11 +752,12 @@ func Main(r *core.Run) {
 		cl, jl = 4, 5
 	}
 	r.Rule(fmt.Sprintf("(1) decoders: every string ≤%d over a %d-byte CBOR structural alphabet under %d configurations (MaxDepth {default,1,2,3} × AllocationBudget {default,1,8,64} × strict/relaxed; prealloc cap, links off, stream mode; cbor codec; kind-specific targets) and every string ≤%d over a %d-byte JSON alphabet under %d configurations, raw on empty/1-byte/70 kB inputs; depth bombs of MaxDepth±1 through a depth-observing assembler proxy; every head of major types 2–5 claiming {24, 2^16, 2^31, 2^32, 2^63-1, 2^64-1} with 0–2 payload bytes, nested 1–4 deep in lists and maps, in a single-goroutine worker under a 6 GiB address-space limit measuring TotalAlloc against %d·(budget+len)+%d; (2) selector compilation of every well-shaped selector ≤3 clauses, every extreme-integer substitution, and thousands of arbitrary small trees over the selector key alphabet; everything that compiles is walked over every graph ≤3 nodes and two deeper ones; (3) ParsePath/Segment on every string ≤4 over an 11-symbol alphabet and 19–20 digit numerals. Oracle: result or error, never a panic; depth ≤ MaxDepth; allocation within the bound; walks terminate. Non-trivial: every case (distinct by construction).", cl, len(cborAlphabet), len(cborConfigs(quick)), jl, len(jsonAlphabet), len(jsonConfigs()), allocK, allocC0))
-	r.Assume("typed assemblers as decode targets are exercised by C09's dag-cbor route (every mutation of every conforming encoding through bindnode and generated representation builders)")
+	r.Assume("generated assemblers as decode targets are exercised by C09/C13's dag-cbor route (every mutation of every conforming encoding through the generated representation builders); the reflection binding's builders are decode targets here")
 	sweep(r, cborAlphabet, cl, cborConfigs(quick), "cbor")
 	sweep(r, jsonAlphabet, jl, jsonConfigs(), "json")
 	depthBombs(r)
 	hostile(r)
+	typedTargets(r)
 	selectors(r, quick)
 	paths(r)
 	for _, in := range [][]byte{nil, {0}, bytes.Repeat([]byte{0xff}, 70000)} {
@@ -777,6 +778,10 @@ func Replay(r *core.Run, mode string, raw json.RawMessage) {
 		in, _ := hex.DecodeString(c.Hex)
 		fs, _ := CheckDecode(c.Cfg, in)
 		r.Report("decode", c, fs)
+	case "decode-typed":
+		var c TypedDecCase
+		json.Unmarshal(raw, &c)
+		replayTyped(r, c)
 	case "selector":
 		selectors(r, false)
 	case "path":
